@@ -298,7 +298,7 @@ func (l *Lease) RenewedAt() time.Time { return l.renewedAt }
 // Renew attempts to reset the TTL on the lease by renewing it.
 // Returns ErrLeaseExpired if lease no longer exists.
 func (l *Lease) Renew(ctx context.Context) error {
-	entry, _, err := l.leaser.client.Session().Renew(l.sessionID, nil)
+	entry, _, err := l.leaser.client.Session().Renew(l.sessionID, (&api.WriteOptions{}).WithContext(ctx))
 	if err != nil {
 		return err
 	} else if entry == nil {
